@@ -68,6 +68,13 @@ def generate(seed, tier):
             tp["line"] = r.choice(lines)
             tp["file"] = r.choice(("other.py", "simhost", p.basename + "x", "/simapp/" + p.basename, ""))
         tps.append(tp)
+    src_gone = False
+    if tps and r.random() < 0.15:
+        # a bystander: a method tracepoint that names no method (what it should do is not demanded) - it finds its
+        # function by reading the source of the frame, which may not be there (a deployment of compiled files only).
+        # Whatever happens to it, the others act as if it were not there
+        tps.append({"id": "tpN", "kind": "snapshot", "file": p.basename, "line": r.choice(lines), "nameless": True})
+        src_gone = r.random() < 0.6
     nthreads = r.choice((1, 1, 2, 3))
     via = r.choice(("service", "service", "register", "direct", "service+register"))
     install = r.choice(("before", "before", "mid"))
@@ -75,7 +82,7 @@ def generate(seed, tier):
     if nthreads == 1 and install == "before" and r.random() < 0.3:
         limits = {"fire_count": r.choice((1, 2, 3))}
     return {"prog": pspec, "tps": tps, "threads": [r.randrange(0, 3) for _ in range(nthreads)], "via": via,
-            "install": install, "limits": limits,
+            "install": install, "limits": limits, "src_gone": src_gone,
             "twin": r.random() < 0.25, "knobs": common.draw_knobs(r, stall_p=0.0)}
 
 
@@ -98,6 +105,8 @@ def tp_args(tp, limits):
     kind = tp["kind"]
     marker = "m_" + tp["id"]
     watches, metrics = [], []
+    if tp.get("nameless"):
+        args["stage"] = "method_start"
     if "method" in tp:
         args["method_name"] = tp["method"]
     if "stage" in tp:
@@ -187,6 +196,10 @@ def execute(scenario, ch):
         if scenario["install"] == "before":
             install_all()
         g = p.load()
+        if scenario.get("src_gone"):
+            import linecache
+            linecache.cache.pop(p.filename, None)
+            k.fault("src_unavailable")
         twin_g = None
         if scenario["twin"]:
             # a second file with the same base name (and therefore the same line numbers) in another directory
@@ -261,11 +274,15 @@ def execute(scenario, ch):
                     ident = by_marker.get(payload[2])
                 elif kind == "span":
                     ident = tp_id if tp_id in tpmap else reg_ids.get(tp_id)
+                if ident == "tpN":
+                    continue          # the nameless bystander: not judged itself
                 got.add((ident, kind))
                 if ident is None:
                     viol.append(V("unattributable-%s" % kind, "event %s %s:%d effect %r" % (event, base, line, str(payload)[:100])))
             want = set()
             for tp in tps:
+                if tp.get("nameless"):
+                    continue
                 if "method" in tp:
                     m = event == "call" and base == tp["file"] and func == tp["method"]
                 else:
